@@ -18,6 +18,97 @@ def repo_root():
     return Path(os.environ.get("BVSTATIC_REPO", "/repo"))
 
 
+def local_bindings(fnode):
+    """Non-parameter local names of a function in source order of first binding (nested defs excluded)."""
+    a = fnode.args
+    params = {x.arg for x in a.posonlyargs + a.args + a.kwonlyargs}
+    if a.vararg:
+        params.add(a.vararg.arg)
+    if a.kwarg:
+        params.add(a.kwarg.arg)
+    seen, order = set(), []
+
+    class V(ast.NodeVisitor):
+        def visit_FunctionDef(self, n):
+            if n is fnode:
+                for st in n.body:
+                    self.visit(st)
+            else:
+                note(n.name)
+
+        visit_AsyncFunctionDef = visit_FunctionDef
+
+        def visit_ClassDef(self, n):
+            note(n.name)
+
+        def visit_Lambda(self, n):
+            pass
+
+        def visit_Name(self, n):
+            if isinstance(n.ctx, ast.Store):
+                note(n.id)
+
+        def visit_ExceptHandler(self, n):
+            if n.name:
+                note(n.name)
+            self.generic_visit(n)
+
+    def note(name):
+        if name not in params and name not in seen:
+            seen.add(name)
+            order.append(name)
+    V().visit(fnode)
+    return order
+
+
+def alpha_restore(fnode, pinned):
+    """Alpha-renaming normalisation: if the function binds the same number of locals as the pinned version but under other
+    names, rename them back to the pinned names (consistent renaming of non-parameter locals preserves behaviour), so that
+    the rules see one spelling.  Returns the number of names restored."""
+    cur = local_bindings(fnode)
+    if len(cur) != len(pinned) or cur == pinned:
+        return 0
+    mapping = {c: p for c, p in zip(cur, pinned) if c != p}
+    # refuse ambiguous cases: not injective, or a pinned name is already used for something else in the function
+    if len(set(mapping.values())) != len(mapping):
+        return 0
+    used = {n.id for n in ast.walk(fnode) if isinstance(n, ast.Name)} | {a.arg for a in ast.walk(fnode) if isinstance(a, ast.arg)}
+    if any(p in used and p not in mapping for p in mapping.values()):
+        return 0
+
+    class R(ast.NodeTransformer):
+        def visit_FunctionDef(self, n):
+            if n is not fnode:
+                if n.name in mapping:
+                    n.name = mapping[n.name]
+                # nested function: its own parameters shadow
+                inner = {x.arg for x in n.args.posonlyargs + n.args.args + n.args.kwonlyargs}
+                if inner & set(mapping):
+                    return n
+            self.generic_visit(n)
+            return n
+
+        def visit_Lambda(self, n):
+            inner = {x.arg for x in n.args.args}
+            if inner & set(mapping):
+                return n
+            self.generic_visit(n)
+            return n
+
+        def visit_Name(self, n):
+            if n.id in mapping:
+                n.id = mapping[n.id]
+            return n
+
+        def visit_ExceptHandler(self, n):
+            if n.name in mapping:
+                n.name = mapping[n.name]
+            self.generic_visit(n)
+            return n
+    R().visit(fnode)
+    return len(mapping)
+
+
 class Func:
     __slots__ = ("module", "cls", "name", "node", "decorators")
 
@@ -107,7 +198,25 @@ class Module:
         self.functions = {}
         self.assigns = {}      # module-level name -> value node (last)
         self.imports = {}      # local name -> (module dotted, attr or None)
+        self.restored = 0
+        self._alpha_restore()
         self._index()
+
+    def _alpha_restore(self):
+        pinned = self.repo.pinned_locals.get(self.rel)
+        if not pinned:
+            return
+        for st in self.tree.body:
+            if isinstance(st, (ast.FunctionDef, ast.AsyncFunctionDef)) and st.name in pinned:
+                self.restored += alpha_restore(st, pinned[st.name])
+            elif isinstance(st, ast.ClassDef):
+                seen = {}
+                for m in st.body:
+                    if isinstance(m, (ast.FunctionDef, ast.AsyncFunctionDef)):
+                        is_setter = any(ast.unparse(d).endswith(".setter") for d in m.decorator_list)
+                        key = f"{st.name}.{m.name}" + (":setter" if is_setter else "")
+                        if key in pinned:
+                            self.restored += alpha_restore(m, pinned[key])
 
     def _pkg(self):
         return self.name if self.is_pkg else self.name.rpartition(".")[0]
@@ -159,6 +268,9 @@ class Repo:
         self.package = package
         self.modules = {}      # rel path -> Module
         self.by_name = {}      # dotted name -> Module
+        import json
+        lp = Path(__file__).resolve().parent / "data" / "locals.json"
+        self.pinned_locals = json.loads(lp.read_text()) if lp.exists() and not os.environ.get("BVSTATIC_NO_ALPHA") else {}
         pkg = self.root / package
         if not pkg.is_dir():
             raise AnalysisError(f"package directory {pkg} not found")
